@@ -170,7 +170,7 @@ func cacheSeq(ctx *engine.Ctx) {
 
 // ---- handshakes that differ in the access key only ----
 
-// idHandshakes: four key ids x four salts (quick: the first three). The ids differ only beyond their fourth byte, are a
+// idHandshakes: four key ids x eight salts. The ids differ only beyond their fourth byte, are a
 // prefix of each other, or are empty; under the documented checksum (XOR fold of id and salt
 // bytes into four lanes) all eight are pairwise different, which foldOK re-checks.
 var idNames = []string{"user-0", "user-1", "user", ""}
@@ -188,6 +188,10 @@ func idHandshake(i int) (string, []byte) {
 		salt[20] ^= 0x52
 	case 3:
 		salt[31] ^= 0x63
+	case 4, 5, 6, 7:
+		// one value folded in at position 0, 3, 5 or 6: four different lanes of the documented
+		// checksum, but equal lanes for a fold with another period (2, 3, 5 or 6)
+		salt[[]int{0, 3, 5, 6}[i/4-4]] ^= 0x77
 	}
 	return idNames[i%4], salt
 }
@@ -230,10 +234,7 @@ func runIDSeq(ctx *engine.Ctx, sc idCase) {
 }
 
 func cacheIDs(ctx *engine.Ctx) {
-	nh := 12
-	if ctx.Tier == "thorough" {
-		nh = 16
-	}
+	nh := 32
 	seen := map[[4]byte]int{}
 	for i := 0; i < nh; i++ {
 		id, salt := idHandshake(i)
